@@ -133,7 +133,8 @@ def jobs(tier):
     # periodic constraints: horizon 8 so that at least two repetitions lie in the box
     Hp = 8
     psc = [("1F2", [fixed("a", 2), worker("w"), req("a", "w")]), ("1F3", [fixed("a", 3), worker("w"), req("a", "w")]),
-           ("1V", [var("a", min_duration=1, max_duration=4), worker("w"), req("a", "w")])]
+           ("1V", [var("a", min_duration=1, max_duration=4), worker("w"), req("a", "w")]),
+           ("1V2", [var("a", min_duration=1, max_duration=2), worker("w"), req("a", "w")])]
     psc.append(("cF2", [fixed("a", 2), fixed("b", 1), cumul("w", 2), req("a", "w"), req("b", "w")]))
     psc.append(("sel", [fixed("a", 2), worker("w"), worker("v"), select("s", ["w", "v"]), req("a", "s")]))
     if tier in ("thorough", "deep"):
